@@ -361,6 +361,37 @@ theorem export_visible_module {cfg : Cfg} {fs : FS} {rec : Runner} (k : Name) (v
   · intro fr2 hw hh
     simp [nonLocal, modExports, hh, hw, wildGet, setData, lookup_insert_self]
 
+/-- with the repaired lookup order (`cfg.exportsFirst`) the export is visible to every later non-local
+read of the module, whatever its wildcard imports provide -/
+theorem export_visible_module_fixed {cfg : Cfg} {fs : FS} {rec : Runner} (k : Name) (v : Int) (fr : Frame)
+    (s : St) (hc : cfg.exportsFirst = true) :
+    ∃ fr' s', execAct cfg fs rec (.export_ k v) fr s = some (none, fr', s')
+      ∧ ∀ fr2 : Frame, fr2.home = none → nonLocal cfg fr2 s' k = some (.int v) := by
+  refine ⟨Modules.bind k (.int v) fr, setData k (.int v) s, rfl, ?_⟩
+  intro fr2 hh
+  simp [nonLocal, hc, modExports, hh, setData, lookup_insert_self]
+
+/-- Negation witness (finding F-C18-7): as it is, a wildcard import shadows the module's own export for
+non-local reads. m1 exports k60 = 5; the script does `from m1 import *`, defines a test that reads k60,
+then `export k60 = 100`: the test (run after the script) still sees 5; with `exportsFirst` it sees 100 -/
+theorem export_shadowed_by_wildcard_witness :
+    let op : Op := { dir := [], exportTop := false, body :=
+      [.act (.fromAll (rf 1)), .defTest 70 40 [.show 41 60], .act (.export_ 60 100)] }
+    (hostRun { cfgEx with hostTests := true } fsEx 5 op init).map (fun r => r.2.out.filter Event.obs)
+      = some [.print 1, .print 40, .show 41 (.int 5)]
+    ∧ (hostRun { cfgEx with hostTests := true, exportsFirst := true } fsEx 5 op init).map
+        (fun r => r.2.out.filter Event.obs)
+      = some [.print 1, .print 40, .show 41 (.int 100)] := by decide +kernel
+
+/-- an `export` executed inside a callback of a core function or inside a generator body reaches the
+exports map of the running module: after the callback saw the elements 1 … last, `exports[k] = last` -/
+theorem callback_export_lands {cfg : Cfg} {fs : FS} {rec : Runner} (last : Nat) (k : Name) (fr : Frame) (s : St)
+    (hl : last ≠ 0) :
+    ∃ s', execAct cfg fs rec (.cbExport last k) fr s = some (none, fr, s')
+      ∧ lookup k s'.exports.data = some (.int last) := by
+  refine ⟨setData k (.int last) s, by simp [execAct, hl], ?_⟩
+  simp [setData, lookup_insert_self]
+
 /-- … and it stays visible: later statements that do not export `k` again keep the entry (nested
 imports included, which swap the exports map and put it back) -/
 theorem export_visible_later {cfg : Cfg} {fs : FS} {rec : Runner} (k : Name) (acts : List TAct)
